@@ -331,6 +331,32 @@ impl Preventer {
     }
 }
 
+/// Returns true if `signature` (the rendered type of a function pointer, e.g.
+/// `unsafe extern "C" fn(i32) -> bool`) has the return type `bool` itself.
+///
+/// A suffix test is not enough: `fn() -> fn() -> bool` also ends in `-> bool`. Skip the
+/// parameter list (parentheses may nest) and look at what follows it.
+fn returns_bool(signature: &str) -> bool {
+    let Some(start) = signature.find("fn(") else {
+        return false;
+    };
+    let params = &signature[start + 2..];
+    let mut depth = 0usize;
+    for (i, c) in params.char_indices() {
+        match c {
+            '(' => depth += 1,
+            ')' => {
+                depth -= 1;
+                if depth == 0 {
+                    return params[i + 1..].trim() == "-> bool";
+                }
+            }
+            _ => {}
+        }
+    }
+    false
+}
+
 /// A builder that lets you chain patching operations.
 pub struct WhenCalledBuilder<'a> {
     lib: &'a mut InjectorPP,
@@ -520,7 +546,7 @@ impl WhenCalledBuilder<'_> {
     /// ```
     pub fn will_return_boolean(self, value: bool) {
         // Ensure the target function returns a bool
-        if !self.expected_signature.trim().ends_with("-> bool") {
+        if !returns_bool(self.expected_signature) {
             panic!(
                 "Signature mismatch: will_return_boolean requires a function returning bool but got {}",
                 self.expected_signature
